@@ -251,7 +251,7 @@ func vfNatsMuxMake(scn string) (func(), func(*vsched.Exec) (string, *vsched.Viol
 			return out, first
 		}
 		if e.Status == vsched.Horizon {
-			viol("C13/livelock", "step horizon exceeded")
+			viol(vfPropOr("C13")+"/livelock", "step horizon exceeded")
 			return out, first
 		}
 		bl := e.Blocked()
